@@ -475,3 +475,68 @@ func jsonKeptResultsScenario(rounds int) (string, string) {
 	}
 	return "", ""
 }
+
+// flateWriterPoolScenario: a compressor may be in the write-side pool only once. A message writer whose Close fails
+// (the transport died under it) on a connection without context takeover, followed by the close of that connection, must
+// not leave the same compressor in the pool twice — two later connections would then compress into each other's streams.
+func flateWriterPoolScenario(rounds int) (string, string) {
+	noTakeover := websocket.VerifCopts{Enabled: true, ClientNoContextTakeover: true, ServerNoContextTakeover: true}
+	takeover := websocket.VerifCopts{Enabled: true}
+	for r := 0; r < rounds; r++ {
+		// 1. a compressed message whose Close fails, then the connection is closed
+		{
+			a, b := newPipe()
+			x := websocket.VerifNewConn(a, r%2 == 0, noTakeover, 16)
+			ctx, cancel := context.WithTimeout(context.Background(), 2*time.Second)
+			w, err := x.Writer(ctx, websocket.MessageText)
+			if err == nil {
+				_, err = w.Write(bytes.Repeat([]byte("doomed message "), 20))
+			}
+			a.Close() // the transport dies: flushing the compressor / writing the final frame fails
+			if err == nil {
+				w.Close()
+			}
+			cancel()
+			x.CloseNow()
+			b.Close()
+		}
+		// 2. two fresh connections that keep their compressor write alternately; library peers read
+		type ep struct {
+			c, peer *websocket.Conn
+			a, b    *pipeEnd
+		}
+		var eps []ep
+		for i := 0; i < 2; i++ {
+			a, b := newPipe()
+			eps = append(eps, ep{websocket.VerifNewConn(a, false, takeover, 16), websocket.VerifNewConn(b, true, takeover, 16), a, b})
+		}
+		bad := ""
+		for k := 0; k < 3 && bad == ""; k++ {
+			for i := range eps {
+				msg := bytes.Repeat([]byte(fmt.Sprintf("connection-%d-message-%d-round-%d ", i, k, r)), 8)
+				ctx, cancel := context.WithTimeout(context.Background(), 3*time.Second)
+				werr := eps[i].c.Write(ctx, websocket.MessageText, msg)
+				var got []byte
+				var rerr error
+				if werr == nil {
+					_, got, rerr = eps[i].peer.Read(ctx)
+				}
+				cancel()
+				if werr != nil || rerr != nil || !bytes.Equal(got, msg) {
+					bad = fmt.Sprintf("round %d: connection %d wrote %q; its peer read %q (write err %v, read err %v) — after a failed writer Close on an earlier connection two connections share one pooled compressor", r, i, trunc(string(msg), 40), trunc(string(got), 60), werr, rerr)
+					break
+				}
+			}
+		}
+		for i := range eps {
+			eps[i].c.CloseNow()
+			eps[i].peer.CloseNow()
+			eps[i].a.Close()
+			eps[i].b.Close()
+		}
+		if bad != "" {
+			return "compressor-shared-between-connections", bad
+		}
+	}
+	return "", ""
+}
